@@ -1,4 +1,5 @@
 import MgpuProofs.C14Run
+import MgpuProofs.C14Once
 /-! # C14 — barriers, wait counts and wavefront termination order execution correctly
 
 Statements are about `C14.run c s ops`: the abstract compute-unit state after an **arbitrary**
@@ -17,7 +18,7 @@ def demo : State :=
   { wfs := (List.range 5).map (fun i =>
       { id := i, wg := if i < 3 then 0 else 1, state := .ready, op := 99, lk := 0, vm := 0, osc := 0, ovc := 0,
         pc := 0, inPool := true, arr := 0, bar := 0 })
-    exec := [], buf := [], out := [none, none, none], sent := [], fault := false }
+    exec := [], buf := [], out := [none, none, none, none], sent := [], fault := false }
 
 def demoOps : List Op :=
   [.issue 2 1 0 0, .eval, .issue 0 10 0 0, .issueUnit 1, .eval, .memIssue 1 true, .unitDone 1,
@@ -165,6 +166,51 @@ theorem endpgm_waits (c : Cfg) (s : State) (w : Wf) (hop : w.op = 1) :
 
 example : ((run Cfg.cur demo (demoOps.take 9)).wfs.map (·.state)) = [.atBarrier, .running, .completed, .ready, .ready] := by
   decide
+
+/-- **wg_completion_once.** After every legal schedule, under arbitrary back-pressure on the port
+    (any initial content, any draining pattern, the retry path included): no work-group's
+    completion message has been sent twice, and a message has been sent only for a group all of
+    whose wavefronts have ended. -/
+theorem wg_completion_once (c : Cfg) (hA : c.fixA = true) (hB : c.fixB = true) (s : State) (ops : List Op)
+    (h0 : Init s) (hs : s.sent = []) (hl : legalRun c s ops = true) :
+    (run c s ops).sent.Nodup ∧
+    ∀ g ∈ (run c s ops).sent, ∀ v ∈ (run c s ops).wfs, v.wg = g → v.state = .completed := by
+  have hc0 : CInv s := by
+    constructor
+    · rw [hs]; exact List.nodup_nil
+    · intro g hg; rw [hs] at hg; cases hg
+  exact run_CInv hA hB ops (Init_Inv h0) hc0 hl
+
+/-- ... and it is sent in the very evaluation in which the last wavefront ends: when all the other
+    wavefronts of the group have ended and the port has room, `s_endpgm` completes, the wavefront is
+    Completed and the message is in the port; when the port is full nothing changes (the wavefront
+    stays Running in `internalExecuting` and the evaluation is retried next cycle). -/
+theorem completion_with_last_or_retry (c : Cfg) (s : State) (w : Wf) (hcnt : ¬ (w.ovc > 0 ∨ w.osc > 0))
+    (hoth : othersCompleted w.wg w.id s.wfs = true) :
+    (s.out.length < c.aceCap →
+      (evalSEndPgm c s w).completed = true ∧ (evalSEndPgm c s w).s.sent = s.sent ++ [w.wg] ∧
+      (evalSEndPgm c s w).s.out = s.out ++ [some w.wg] ∧
+      ∀ v' ∈ (evalSEndPgm c s w).s.wfs, v'.id = w.id → v'.state = .completed) ∧
+    (¬ s.out.length < c.aceCap → evalSEndPgm c s w = ⟨s, false, false, false⟩) := by
+  unfold evalSEndPgm
+  simp only [hcnt, if_false, hoth, if_true]
+  constructor
+  · intro hroom
+    simp only [hroom, if_true, true_and]
+    intro v' hv' hid
+    simp only [clearPool, List.mem_map] at hv'
+    obtain ⟨v1, hv1, rfl⟩ := hv'
+    obtain ⟨v, _, rfl⟩ := mem_updWf.mp hv1
+    by_cases h1 : v.id = w.id
+    · simp [h1, complete]; split <;> rfl
+    · exfalso; apply h1
+      revert hid; simp only [h1, if_false]; split <;> exact fun h => h1 h
+  · intro hfull
+    simp only [hfull, if_false]
+
+example : (run Cfg.cur demo (demoOps.take 20)).sent = [] ∧ (run Cfg.cur demo (demoOps.take 22)).sent = [0] ∧
+    (run Cfg.cur demo (demoOps.take 20)).exec = [1] := by decide
+
 
 /-- **barrier_live (release step).** When the last unfinished wavefront of a group arrives — all
     the others are AtBarrier or have ended — every wavefront of the group is Ready or Completed
